@@ -102,6 +102,11 @@ def jit_vs_interpreter(chk, r, rep, n_points, n_runs, max_pto, n_cells=60):
         if tmc == 0:
             pts_ += [dict(x=float(g_[3] * (1 - 1e-6)), Q2=q2_), dict(x=float(g_[5] * (1 + 1e-6)), Q2=q2_), dict(x=float(g_[6] * (1 - 1e-6)), Q2=q2_)]
         runs.append(dict(theory=cards.theory(PTO=pto, FNS=scheme, NfFF=nfff, TMC=tmc), observables=cards.obs({name: pts_}, prDIS=process, ProjectileDIS="neutrino" if process == "CC" else "electron", interpolation_xgrid=g_)))
+    # target-mass corrections in every mode (the integrals over the h2 / g2 / h3 / k kernels are only reached
+    # through a whole run: the kernels get the shifted variable through their argument vector)
+    for kind_, tmc_, proc_ in (("F2", 1, "NC"), ("F3", 3, "CC"), ("FL", 3, "EM"), ("g1", 3, "NC"), ("F2", 2, "EM")):
+        g_ = cards.default_grid(8, 1e-2)
+        runs.append(dict(theory=cards.theory(PTO=0 if kind_ != "FL" else 1, FNS="ZM-VFNS", NfFF=4, TMC=tmc_), observables=cards.obs({f"{kind_}_light": [dict(x=0.3, Q2=4.0), dict(x=0.6, Q2=10.0)]}, prDIS=proc_, ProjectileDIS="neutrino" if proc_ == "CC" else "electron", interpolation_xgrid=g_)))
     # every kind of kernel the Combiner can hand out, evaluated at z = 0.5, 0.25, 0.8 in both modes
     # (z = 0.5 makes 1/(1-z) = 2, 1-z = z, ...: branch points of the special functions)
     cells = []
